@@ -173,8 +173,34 @@ func c01Docs(tier string) []c01Doc {
 		"---@class A\n---@field x A\n---@type A", "---@type A | B | \"s\"", "---|", "---| \"r\" # c"} {
 		add(l+"\nlocal v = {}\nlocal w = v[1]\nprint(v.x, w, v[\"k\"])\n", "annotation block above a declaration")
 	}
+	// names and prefixes the analysis special-cases (_G, self, _ENV, require, a string or literal where a table name is
+	// expected) in every syntactic role of a small statement list; thorough: every ordered pair of statements
+	var sts []string
+	for _, st := range c01RoleStatements {
+		for _, sp := range c01SpecialNames {
+			sts = append(sts, strings.ReplaceAll(st, "N", sp))
+		}
+	}
+	for _, t := range sts {
+		add(t+"\n", "special name in a syntactic role")
+	}
+	if tier == "thorough" {
+		for _, sp := range c01SpecialNames {
+			for _, s1 := range c01RoleStatements {
+				for _, s2 := range c01RoleStatements {
+					add(strings.ReplaceAll(s1+"\n"+s2+"\n", "N", sp), "special name in two syntactic roles")
+				}
+			}
+		}
+	}
 	return out
 }
+
+var c01RoleStatements = []string{"N.x = 1", "N.x.y = 1", "N[1] = 1", "N[\"k\"] = 1", "N = 1", "local N = 1", "print(N.x)", "N.f()", "N:m()", "function N.f() end",
+	"function N:m() end", "function N() end", "local function N() end", "for N = 1, 2 do end", "for N, v in pairs(t) do end", "N.x, N.y = 1, 2", "local t = {N = 1}", "t.N = 1",
+	"return N", "N = N or {}", "N.x = N.x or 1", "setmetatable(N, {})", "local v = N[1].x", "N.x.y.z = 1", "N().x = 1", "N\"s\"", "N{}", "local v = N", "v = {N}", "N.x = function() end"}
+
+var c01SpecialNames = []string{"_G", "self", "_ENV", "(\"_G\")", "(\"s\")", "require", "import", "_G._G", "_G.a", "a._G", "nil", "...", "(1)", "({})", "(function() end)", "\"_G\"", "[[s]]", "_G[\"a\"]", "require(\"o\")"}
 
 func c01PositionSpace(tier string) *core.Space {
 	docs := c01Docs(tier)
